@@ -47,7 +47,7 @@ def script(rng, kinds, n):
             lens = [0, 1, 5, 40, 300, 1200, 1460]
             lens += [1461, 1461, 2000, 4000]     # (the responder refuses payloads above 1460 bytes: it must then not keep them either)
             steps.append({"a": "wrtp", "s": 1, "w": w % 65536, "id": ident, "len": rng.choice(lens),
-                          "shape": rng.choice([0, 0, 2, 3, 3, 5, 5, 6]), "fail": False})
+                          "shape": rng.choice([0, 0, 2, 3, 3, 4, 4, 5, 5, 6]), "fail": False})
             sent.append(w % 65536)
         elif q < 0.8:
             r += 1
@@ -73,6 +73,10 @@ def script_sizes(rng, kinds):
         w += 1
         steps.append({"a": "wrtp", "s": 1, "w": w % 65536, "id": i + 1, "len": ln, "shape": rng.choice([0, 3, 5]), "fail": False})
         sent.append(w % 65536)
+        if i % 3 == 1:           # a packet whose padding count exceeds its payload (refused when RTX is negotiated) in between
+            w += 1
+            steps.append({"a": "wrtp", "s": 1, "w": w % 65536, "id": 100 + i, "len": 50, "shape": 4, "fail": False})
+            sent.append(w % 65536)
     steps += [{"a": "rrtcp", "s": 1, "kind": "nack", "nums": sent[:5], "id": 50, "fail": False}, {"a": "wait", "ms": 3},
               {"a": "rrtcp", "s": 1, "kind": "nack", "nums": sent[5:], "id": 51, "fail": False},
               {"a": "wait", "ms": 10}, {"a": "close"}]
